@@ -248,3 +248,6 @@ func implicitConfig() Config {
 	}
 	return *implicitCfg
 }
+
+// NewFile wraps an implementation as a *File (the transformed code's *os.File).
+func NewFile(name string, impl FileImpl) *File { return &File{name, impl} }
